@@ -359,8 +359,12 @@ func runOnce(s *Scenario, c Component, n int, prefix []int, cut int) []vsched.Ch
 	}
 	tr := vsched.Run(bodies, prefix)
 	fmt.Fprintf(out, "RUN %s %d\nS", s.ID, n)
-	for _, t := range vsched.Acc {
-		fmt.Fprintf(out, " %d", t)
+	for i, t := range vsched.Acc {
+		if vsched.AccChoice[i] >= 0 {
+			fmt.Fprintf(out, " %d:%d", t, vsched.AccChoice[i])
+		} else {
+			fmt.Fprintf(out, " %d", t)
+		}
 	}
 	fmt.Fprintf(out, "\nC")
 	for _, ch := range tr {
